@@ -179,6 +179,7 @@ Definition fuel_of (s : st) : nat := 4 * length (thr s) + 2.
 (* cfg [m0] (-1: the server preface has no MAX_CONCURRENT_STREAMS = 2^32-1)
    [1] NewStream   [2; v] SETTINGS   [3; k; how] k-th open stream ends
    [4; k] the k-th blocked call's context is cancelled   [5; kind] GOAWAY / Close (terminal)
+   [6; w] a later SETTINGS frame that does not carry MAX_CONCURRENT_STREAMS (the limit stays)
    obs [quota; waiting; #open; #blocked; #ctx errors; #terminal errors; n; ids seen by the
         server this step (n); ids returned by NewStream this step (n)] *)
 Definition nth_mod (k : Z) (l : list Z) : option Z :=
@@ -194,6 +195,7 @@ Definition op_act (s : st) (tid : Z) (op : word) : option (list act) :=
   | [3; k; _] => match nth_mod k (open s) with Some id => Some [AClose id] | None => Some [] end
   | [4; k] => match nth_mod k (map fst (thr s)) with Some t => Some [ALeave t] | None => Some [] end
   | [5; k] => Some [ADead k]
+  | [6; _] => Some []   (* handleSettings without MAX_CONCURRENT_STREAMS: no updateStreamQuota *)
   | _ => None
   end.
 
